@@ -190,6 +190,90 @@ def _rewrite_block(stmts):
     return out
 
 
+def _inline_adjacent_temps(fn):
+    """`t = E` immediately followed by the only statement that uses `t`, exactly once and not under a loop, lambda or
+    comprehension of that statement: read as if E were written in place (whether a sub-expression got a name of
+    its own is not semantics for any rule)."""
+    counts_store, counts_load = {}, {}
+    for n in ast.walk(fn):
+        if isinstance(n, ast.Name):
+            d = counts_store if isinstance(n.ctx, (ast.Store, ast.Del)) else counts_load
+            d[n.id] = d.get(n.id, 0) + 1
+        elif isinstance(n, (ast.Global, ast.Nonlocal)):
+            for nm in n.names:
+                counts_store[nm] = counts_store.get(nm, 0) + 2
+    params = {a.arg for a in fn.args.args + fn.args.kwonlyargs + fn.args.posonlyargs}
+
+    def one_use(st, name):
+        hits = []
+        stack = [(st, False)]
+        while stack:
+            node, shielded = stack.pop()
+            if isinstance(node, ast.Name) and node.id == name and isinstance(node.ctx, ast.Load):
+                hits.append((node, shielded))
+            sh = shielded or isinstance(node, (ast.Lambda, ast.GeneratorExp, ast.ListComp, ast.SetComp, ast.DictComp, ast.FunctionDef, ast.AsyncFunctionDef))
+            for ch in ast.iter_child_nodes(node):
+                stack.append((ch, sh))
+        return hits
+
+    def block(stmts):
+        out = []
+        i = 0
+        while i < len(stmts):
+            st = stmts[i]
+            nxt = stmts[i + 1] if i + 1 < len(stmts) else None
+            if (
+                isinstance(st, ast.Assign)
+                and len(st.targets) == 1
+                and isinstance(st.targets[0], ast.Name)
+                and st.targets[0].id not in params
+                and counts_store.get(st.targets[0].id) == 1
+                and counts_load.get(st.targets[0].id) == 1
+                and nxt is not None
+                and isinstance(nxt, (ast.Assign, ast.AugAssign, ast.AnnAssign, ast.Return, ast.Expr, ast.Raise, ast.Assert, ast.If, ast.While))
+            ):
+                name = st.targets[0].id
+                # for compound statements only the header expression counts as "the next statement"
+                header = nxt.test if isinstance(nxt, (ast.If, ast.While)) else nxt
+                hits = one_use(header, name)
+                if len(hits) == 1 and not hits[0][1]:
+                    use = hits[0][0]
+                    val = st.value
+
+                    class S(ast.NodeTransformer):
+                        def visit_Name(self, x):
+                            return val if x is use else x
+
+                    if isinstance(nxt, (ast.If, ast.While)):
+                        nxt.test = S().visit(nxt.test)
+                    else:
+                        stmts[i + 1] = S().visit(nxt)
+                    i += 1
+                    continue
+            out.append(st)
+            i += 1
+        return out
+
+    def rec(node):
+        for fld in ("body", "orelse", "finalbody"):
+            b = getattr(node, fld, None)
+            if isinstance(b, list) and b and isinstance(b[0], ast.stmt):
+                for ch in b:
+                    if not isinstance(ch, (ast.FunctionDef, ast.AsyncFunctionDef, ast.ClassDef)):
+                        rec(ch)
+                prev = None
+                while prev != len(b):  # chains of temporaries fold one after another
+                    prev = len(b)
+                    b = block(b)
+                setattr(node, fld, b)
+        for h in getattr(node, "handlers", []) or []:
+            rec(h)
+        for c in getattr(node, "cases", []) or []:
+            rec(c)
+
+    rec(fn)
+
+
 class _BlockNormaliser(ast.NodeTransformer):
     def generic_visit(self, node):
         super().generic_visit(node)
@@ -201,8 +285,15 @@ class _BlockNormaliser(ast.NodeTransformer):
 
 
 def _normalise(tree: ast.AST) -> None:
+    def temps():
+        for n in ast.walk(tree):
+            if isinstance(n, (ast.FunctionDef, ast.AsyncFunctionDef)):
+                _inline_adjacent_temps(n)
+
+    temps()  # first: a temporary inside a loop body would hide the loop's shape from the block rewrites
     _Normaliser().visit(tree)
     _BlockNormaliser().visit(tree)
+    temps()  # again: the rewrites create new adjacencies
 
 
 def _collect_defs(mod: Module) -> None:
